@@ -13,6 +13,7 @@ def parseSide (j : Json) (s2f : Bool) : R SideArg := do
   | "reuse" =>
     let dims ← parseDims (← fld j "dims")
     return .reuse (← str j "base") (writeIndVal dims s2f) (npointsOf dims) (← bool j "same")
+  | "reuse_bad" => return .reuseBad (← str j "base") (← bool j "same")
   | _ => return .badType
 
 def parseData (j : Json) : R DataArg := do
